@@ -115,6 +115,7 @@ type Stats struct {
 	Goroutines  int
 	Adoptions   int
 	TimeJumps   int
+	Stalls      int
 	MaxRunnable int
 	SelectsMulti int
 	Leaked      int
@@ -135,6 +136,11 @@ type Sim struct {
 	onces map[*sync.Once]*onceState
 
 	SwitchDen int // a context switch is taken with probability 1/SwitchDen when the current goroutine could continue
+	// StallDen > 0: with probability 1/StallDen per scheduling step every runnable goroutine is held back while
+	// simulated time passes ("slow node" fault).  Virtual time otherwise only advances when everything is blocked,
+	// so a ticker (cache snapshot loop, compaction loop, fsync batcher) could never fire in the middle of an
+	// operation that does not block; after a stall the goroutines those timers woke compete with the stalled ones.
+	StallDen int
 	MaxSteps  int
 	Stats     Stats
 	sig       uint64
@@ -366,6 +372,13 @@ func (s *Sim) Run(main func()) {
 		sort.Slice(R, func(i, j int) bool { return R[i].ID < R[j].ID })
 		if len(R) > s.Stats.MaxRunnable {
 			s.Stats.MaxRunnable = len(R)
+		}
+		if s.StallDen > 0 && s.T.Bool(1, s.StallDen, "stall") {
+			d := []time.Duration{time.Millisecond, 20 * time.Millisecond, time.Second, 10 * time.Second}[s.T.Choose(4, "stall-for")]
+			s.Stats.Stalls++
+			s.mu.Unlock()
+			time.Sleep(d) // everybody else is parked or blocked: the bubble's clock runs, timers fire
+			continue
 		}
 		g := s.pick(R)
 		if g != s.cur.Load() {
